@@ -27,7 +27,9 @@ CommitChoices(i) ==
 
 Allowed(i, c) ==
   /\ (i = 1 => c.ops # <<>>)                 \* a bug starts with its create operation
-  /\ (c.ct = 1 => c.par = <<>>)              \* a creation clock only on parentless commits (others: Format.tla, C07)
+  \* a creation clock on parentless commits - and on later ones when the first commit has none (whoever carries it, a history whose
+  \* root has no creation time is refused)
+  /\ (c.ct = 1 => (IF i = 1 THEN TRUE ELSE (c.par = <<>> \/ commits[1].ct = 0)))
 
 FInit ==
   /\ commits = <<>> /\ nops = 0
